@@ -3,3 +3,4 @@ CONSTANTS
   MaxLen = 2
   Seed = 0
 INVARIANT Emit
+INVARIANT EmitOverlay
